@@ -24,6 +24,11 @@ func (c *Ctx) bindResult(fr *Frame, res ssa.Value, sig *types.Signature, vals []
 	if res == nil {
 		return
 	}
+	if ins, ok := res.(ssa.Instruction); ok && c.curState != nil && fr.depth == 0 {
+		if si, ok := c.sitesOf(ins.Parent())[ins]; ok && strings.HasPrefix(si.class, "call ") {
+			c.curState.callResults[fmt.Sprintf("%s#%d", strings.TrimPrefix(si.class, "call "), si.ord)] = vals
+		}
+	}
 	switch sig.Results().Len() {
 	case 0:
 		fr.regs[res] = Tuple{}
@@ -59,6 +64,7 @@ func (c *Ctx) toTerm(st *State, v Value) Term {
 
 // doCallCommon dispatches a call (also used for deferred calls).
 func (c *Ctx) doCallCommon(st *State, fr *Frame, ins ssa.Instruction, call *ssa.CallCommon, res ssa.Value, fnVal Value, args []Value, isDefer bool) []cont {
+	c.curState = st
 	sig := call.Signature()
 	if b, ok := call.Value.(*ssa.Builtin); ok && !call.IsInvoke() {
 		return c.doBuiltin(st, fr, ins, b, call, res, args)
@@ -174,8 +180,17 @@ func (c *Ctx) callStatic(st *State, fr *Frame, ins ssa.Instruction, f *ssa.Funct
 	if f.Origin() != nil {
 		full = f.Origin().String()
 	}
+	full = typeArgRe.ReplaceAllString(full, "")
 	if h, ok := intrinsics[full]; ok {
 		return h(c, st, fr, ins, f, res, args)
+	}
+	if c.cur != nil && c.cur.isInit {
+		// while executing package initialisers: initialisers of other module packages are
+		// executed too, everything else outside the module is a plain external call
+		if f.Name() == "init" && f.Synthetic != "" && len(f.Blocks) == 0 {
+			c.bindResult(fr, res, sig, nil)
+			return one(st, fr)
+		}
 	}
 	key := c.FuncKey(f)
 	if ct := c.Contracts[key]; ct != nil && ct.Opts["inline"] == "" {
@@ -387,7 +402,7 @@ func (c *Ctx) applyContract(st *State, fr *Frame, ins ssa.Instruction, ct *Contr
 	}
 	short := c.ShortName(key)
 	for i, r := range ct.Requires {
-		t, err := c.evalBool(env, r.Expr)
+		t, err := c.evalGoal(env, r.Expr)
 		if err != nil {
 			c.Errorf("CONTRACT-ERROR %s: %v", r.Line, err)
 			continue
@@ -397,14 +412,44 @@ func (c *Ctx) applyContract(st *State, fr *Frame, ins ssa.Instruction, ct *Contr
 			label = fmt.Sprintf("requires.%d", i+1)
 		}
 		c.Oblige(st, fr, ins, "pre", label, t, short+" requires "+r.Text)
+		// the clause holds from here on: state its consequences too (assume-direction unfolding)
+		_, _ = c.evalBool(env, r.Expr)
 	}
 	if ct.Decreases != nil && c.cur != nil && c.cur.contract != nil && c.cur.contract.Decreases != nil && c.sameRecGroup(c.cur.contract, ct, f) {
-		m, err := c.evalSpec(env, ct.Decreases.Expr)
-		if err != nil {
-			c.Errorf("CONTRACT-ERROR %s: %v", ct.Decreases.Line, err)
-		} else if c.cur.entryMeasure.S != "" {
-			c.Oblige(st, fr, ins, "decreases", "", T(SBool, "(and (<= 0 %s) (< %s %s))", m.t.S, m.t.S, c.cur.entryMeasure.S),
-				"recursive call decreases the measure "+ct.Decreases.Text+" (termination)")
+		var ms []Term
+		ok := true
+		for _, d := range ct.DecreasesList {
+			m, err := c.evalSpec(env, d.Expr)
+			if err != nil {
+				c.Errorf("CONTRACT-ERROR %s: %v", d.Line, err)
+				ok = false
+				break
+			}
+			ms = append(ms, m.t)
+		}
+		if ok && len(c.cur.entryMeasures) > 0 {
+			// lexicographic order on tuples of non-negative integers (missing components count as 0)
+			n := len(ms)
+			if len(c.cur.entryMeasures) > n {
+				n = len(c.cur.entryMeasures)
+			}
+			get := func(l []Term, i int) Term {
+				if i < len(l) {
+					return l[i]
+				}
+				return IntLit(0)
+			}
+			less := False
+			for i := n - 1; i >= 0; i-- {
+				a, b := get(ms, i), get(c.cur.entryMeasures, i)
+				less = Or(T(SBool, "(< %s %s)", a.S, b.S), And(Eq(a, b), less))
+			}
+			nonneg := True
+			for _, m := range ms {
+				nonneg = And(nonneg, T(SBool, "(<= 0 %s)", m.S))
+			}
+			c.Oblige(st, fr, ins, "decreases", "", And(nonneg, less),
+				"recursive call decreases the measure ("+ct.Decreases.Text+") lexicographically (termination)")
 		}
 	}
 	if held := ct.Opts["holds"]; held != "" {
@@ -420,6 +465,7 @@ func (c *Ctx) applyContract(st *State, fr *Frame, ins ssa.Instruction, ct *Contr
 	cache := map[*SNode]specVal{}
 	c.captureOld(env, ct.Ensures, cache)
 	env.oldCache = cache
+	env.preAlloc = c.Arr(st, famAlloc, ArraySort(SInt, SBool))
 	// frame
 	c.havocForContract(st, fr, env, ct, f)
 	// results
